@@ -76,7 +76,7 @@ def mk_storage(D, name, node, price=None, eff=None, costs=True, inflow=True, wac
     s, e = window(tg, win) if win is not None else (None, None)
     a = eao.assets.Storage(name, nodes=node, size=size, cap_in=D(name + '_capin', lo=0), cap_out=D(name + '_capout', lo=0),
                            start_level=start, end_level=end,
-                           cost_in=D(name + '_cin', lo=0) if costs else 0., cost_out=D(name + '_cout', lo=0) if costs else 0.,
+                           cost_in=D(name + '_cin', lo=0) if costs is True else 0., cost_out=D(name + '_cout', lo=0) if costs is True else 0.,
                            cost_store=D(name + '_cstore', lo=0) if costs else 0.,
                            eff_in=(1. if eff is None else D.coef(name + '_eff', eff, lo_strict=0, hi=1)),
                            inflow=D(name + '_inflow', lo=0) if inflow else 0., price=price, wacc=wacc,
@@ -273,15 +273,17 @@ def mk_orderbook(D, name, node, tg, orders, full_exec=False, capa_sym=False, wac
     return eao.assets.OrderBook(name=name, nodes=node, orders=od, full_exec=full_exec, wacc=wacc)
 
 
-def pf_orderbook(D, T=3, orders=((0, 2, 2.0), (1, 3, -1.5), (1, 2, 1.0)), full_exec=False, storage=True, wacc=False):
+def pf_orderbook(D, T=3, orders=((0, 2, 2.0), (1, 3, -1.5), (1, 2, 1.0)), full_exec=False, storage=True, wacc=False, ob_last=False, freq='h'):
     eao = lift.import_eao()
-    tg = grid(T)
+    tg = grid(T, freq)
     (nA,) = nodes('A')
     w = D('wacc', lo=0) if wacc else 0
     ob = mk_orderbook(D, 'ob', nA, tg, orders, full_exec=full_exec, wacc=w)
     assets = [ob, mk_market(D, 'mkt', nA, T, 'p', wacc=w)]
     if storage:
         assets.append(mk_storage(D, 'sto', nA, eff=None, costs=False, inflow=False, wacc=w))
+    if ob_last:
+        assets = assets[1:] + assets[:1]
     pf = eao.portfolio.Portfolio(assets)
     return Shape(pf, tg, prices_for(D, ['p'], T))
 
@@ -369,7 +371,38 @@ def pf_names(D, T=3, names=('1x', 'x'), node_names=('A',), order=None, storage=F
     return Shape(pf, tg, prices_for(D, ['p0', 'p1'], T))
 
 
-PORTFOLIOS = dict(names=pf_names, contract_storage=pf_contract_storage, two_node=pf_two_node, multicommodity=pf_multicommodity,
+def pf_windows(D, T=4, wins=((0, 1), (0, 1), (2, 4), (2, 4)), two_nodes=False):
+    """contracts with individual windows on one node (gaps in the node's active steps possible); optional transport to a second node"""
+    eao = lift.import_eao()
+    tg = grid(T)
+    nA, nB = nodes('A', 'B')
+    assets = []
+    for i, w in enumerate(wins):
+        assets.append(mk_market(D, 'w%d' % i, nA, T, 'p%d' % (i % 2), ec=(i == 0), win=w, tg=tg))
+    if two_nodes:
+        assets.append(mk_transport(D, 'tr', nA, nB, eff=0.5))
+        assets.append(mk_market(D, 'mB', nB, T, 'p1'))
+    pf = eao.portfolio.Portfolio(assets)
+    return Shape(pf, tg, prices_for(D, ['p0', 'p1'], T))
+
+
+def pf_caps_ts(D, T=3, wacc=False):
+    """contract whose min/max capacity and extra costs are time series (columns of the price data), plus market and storage"""
+    eao = lift.import_eao()
+    tg = grid(T)
+    (nA,) = nodes('A')
+    w = D('wacc', lo=0) if wacc else 0
+    prices = prices_for(D, ['p', 'r'], T)
+    prices['capmin'] = D.arr('capmin', T, hi=0)
+    prices['capmax'] = D.arr('capmax', T, lo=0)
+    prices['ecs'] = D.arr('ecs', T, lo=0)
+    ct = eao.assets.Contract(name='ct', nodes=nA, price='r', min_cap='capmin', max_cap='capmax', extra_costs='ecs', wacc=w)
+    m = mk_market(D, 'mkt', nA, T, 'p', wacc=w)
+    pf = eao.portfolio.Portfolio([ct, m])
+    return Shape(pf, tg, prices)
+
+
+PORTFOLIOS = dict(names=pf_names, caps_ts=pf_caps_ts, windows=pf_windows, contract_storage=pf_contract_storage, two_node=pf_two_node, multicommodity=pf_multicommodity,
                   contract_take=pf_contract_take, plant=pf_plant, coarse=pf_coarse, periodic=pf_periodic,
                   orderbook=pf_orderbook, scaled=pf_scaled, structured=pf_structured, ext_transport=pf_ext_transport)
 
